@@ -77,6 +77,7 @@ func (ex *Exec) callValue(st *State, fc *FnCtx, c *ssa.CallCommon, fnv Val, args
 			return
 		}
 		if fct := ex.fieldContractFor(c.Value); fct != nil {
+			ex.pendingFn = &callee
 			ex.applyContract(st, fc, fct, nil, c.Signature(), nil, args, in, k)
 			return
 		}
@@ -349,6 +350,10 @@ func (ex *Exec) modifiedRefs(env *SpecEnv, ct *Contract) (refs map[string][]Term
 func (ex *Exec) applyContract(st *State, fc *FnCtx, ct *Contract, fn *ssa.Function, sig *types.Signature, recvT types.Type, args []Val, in ssa.Instruction, k func(st *State, res Val)) {
 	ex.usedContracts[ct.Func] = true
 	names := ex.bindParams(st, fn, sig, recvT, args)
+	if ex.pendingFn != nil {
+		names["fn"] = tv{T: *ex.pendingFn}
+		ex.pendingFn = nil
+	}
 	var pkg *types.Package
 	if fn != nil {
 		pkg = fnPkg(fn)
@@ -631,12 +636,13 @@ func (ex *Exec) appendOp(st *State, fc *FnCtx, c *ssa.CallCommon, args []Val, in
 		ncap := ex.fresh("ncap", sBV64)
 		st.assume(mk(sBool, "bvsle", newLen, ncap))
 		st.assume(mk(sBool, "bvsle", ncap, bv64(1<<62)))
-		// fresh array: prefix copied from s, then t
-		fresh := ex.fresh("ga", oldArr.So)
-		ex.copyAxiomFresh(st, fresh, oldArr, sliceOff(s), sliceLen(s), ex.u.zeroOf(et))
-		newArr := ex.writeRange(st, fresh, sliceLen(s), tarr, toff, tl)
+		// The new backing array holds a copy of the old one (same offset), then t.
+		// Slots beyond the new length are modelled as the old array's slack
+		// contents rather than zeros (assumption A-APPEND-SLACK: no function
+		// under contract reads the capacity region after a growing append).
+		newArr := ex.writeRange(st, oldArr, mk(sBV64, "bvadd", sliceOff(s), sliceLen(s)), tarr, toff, tl)
 		ex.setComp(st, compArrT(et), store(ac, r, newArr))
-		k(st, ex.define(st, "ap", mkSlice(r, bv64(0), newLen, ncap)))
+		k(st, ex.define(st, "ap", mkSlice(r, sliceOff(s), newLen, ncap)))
 	}
 }
 
